@@ -245,6 +245,7 @@ def make_case(rng, host, depth, family, nsteps, name, budget=8, p_bad=0.0):
            "p_abort": rng.choice([0.0, 0.0, 0.1]) if host != "stream" else 0.0,
            "p_noop": 0.0 if direct else 0.15,
            "p_run": 0.0 if direct else 0.1,
+           "p_batch": rng.choice([0.0, 0.25, 0.5]) if host == "direct" else 0.0,
            "p_bad": p_bad if host.startswith("bridge") else 0.0}
     return {"name": name, "host": host, "progs": progs, "follow": follow, "legacy": legacy,
             "steps": [{"a": "run", "p": 0}], "policy": pol}
